@@ -12,3 +12,11 @@ pub assume_specification<T, E, U, F: FnOnce(T) -> Result<U, E>>[ Result::<T, E>:
 /// R3: `String::from_utf8(v).map_err(|e| ErrorKind::FromUtf8Error(e).into())` (UTF-8 validation is std code; no contract depends on its outcome)
 #[verifier::external_body]
 pub fn verif_string_from_utf8(v: Vec<u8>) -> (r: Result<String, Error>) { unimplemented!() }
+
+/// R24: `C::DEFAULT_VALUE.ne(value)`
+#[verifier::external_body]
+pub fn verif_default_ne<C: default::Constraint>(value: &C::Owned) -> bool { C::DEFAULT_VALUE.ne(value) }
+
+/// R4: `s.chars().count()` (number of Unicode scalar values; std iterator code)
+#[verifier::external_body]
+pub fn verif_str_char_count(s: &str) -> (n: usize) { s.chars().count() }
